@@ -1,6 +1,7 @@
 import Driver.Proto
 import AdaVerif.Spec.Sets
 import AdaVerif.Model.Encode
+import Driver.UrlCmd
 /-
 Model driver: same line protocol as harness/ada_harness.cpp, answered by the Lean Model/Spec.
 -/
@@ -42,6 +43,8 @@ def step (a : List String) : String :=
   | ["spec.dec", h] => hexs (Spec.percentDecode (unhexs h))
   | ["spec.formdec", h] => hexs (Spec.formDecode (unhexs h))
   | ["spec.formenc", h] => hexs (Spec.percentEncodeForm (unhexs h))
+  | "spec.parse" :: input :: base :: hints => cmdSpecParse input base hints
+  | "spec.seq" :: input :: base :: rest => cmdSpecSeq input base rest
   | _ => "bad-op"
 
 partial def loop (h : IO.FS.Stream) (out : IO.FS.Stream) : IO Unit := do
